@@ -166,25 +166,29 @@ Definition direct_votes (st : vstate) (sg : stage) : list gvote := dedup (map sn
 (* map[common.Hash]uint32 assignment *)
 Definition bset (b : block) (n : N) (m : list (block * N)) : list (block * N) := store b n m.
 
-(* getPossibleSelectedAncestors; fuel: the recursion goes to a strict ancestor, whose index is
-   smaller *)
+(* getPossibleSelectedAncestors.  [sa_loop] is the range-loop over votes for one value of curr;
+   [rec] is the recursive call (for the common ancestor pred).  The recursion goes to a strict
+   ancestor, whose index is smaller: fuel = index + 1 suffices. *)
+Fixpoint sa_loop (e : env) (st : vstate) (sg : stage) (thr : N)
+    (rec : block -> list (block * N) -> list (block * N))
+    (curr : block) (vs : list gvote) (selected : list (block * N)) : list (block * N) :=
+  match vs with
+  | [] => selected
+  | v :: r =>
+    if (gv_block v =? curr)%nat then sa_loop e st sg thr rec curr r selected
+    else
+      let pred := lca (e_tree e) (gv_block v) curr in
+      if (pred =? curr)%nat then selected      (* return from inside the loop *)
+      else if (thr <? total_votes e st sg pred)%N
+           then sa_loop e st sg thr rec curr r (bset pred (number e pred) selected)
+           else sa_loop e st sg thr rec curr r (rec pred selected)
+  end.
+
 Fixpoint selected_ancestors (e : env) (st : vstate) (sg : stage) (thr : N) (fuel : nat)
     (votes : list gvote) (curr : block) (selected : list (block * N)) : list (block * N) :=
   match fuel with
   | O => selected
-  | S fuel' =>
-    (fix loop (vs : list gvote) (selected : list (block * N)) : list (block * N) :=
-       match vs with
-       | [] => selected
-       | v :: r =>
-         if (gv_block v =? curr)%nat then loop r selected
-         else
-           let pred := lca (e_tree e) (gv_block v) curr in
-           if (pred =? curr)%nat then selected      (* return from inside the loop *)
-           else if (thr <? total_votes e st sg pred)%N
-                then loop r (bset pred (number e pred) selected)
-                else loop r (selected_ancestors e st sg thr fuel' votes pred selected)
-       end) votes selected
+  | S fuel' => sa_loop e st sg thr (selected_ancestors e st sg thr fuel' votes) curr votes selected
   end.
 
 (* getPossibleSelectedBlocks *)
